@@ -8,6 +8,9 @@ BASE = ("go/types + go/ssa (x/tools v0.29.0) faithful IR; stdlib contracts as do
         "(DESIGN.md section 3); caller-supplied io.Reader/io.Writer obey their contracts")
 
 CHECKS = {
+ "C09": dict(level="other", ref="§4 C09",
+   text="The four rejection classes as path rules on the SSA form: (a) truncation inside a field — every field is read through the sequential reader's guarded primitive, proven to fail at end of data and never to advance beyond it, and every wire decoder is proven to return nil only when at least its minimum width is present, every other return being a non-nil error; the sticky error is what every packet decoder returns and ReadPacket turns it into (nil, err); (b) both variable-byte-integer decoders keep the size guard on every cycle and only the no-continuation-bit exit reaches success; (c) the boolean decoder succeeds only on the byte==0 / byte==1 edges; (d) in the property loop every iteration reads a value or records a non-nil error, and all accepted identifiers are among the 27 of MQTT v5.0. The mechanism is decided, not the enumeration of every cut of every frame.",
+   technique="static analysis: CFG path rules (must-pass-through, dominance), linear-inequality proofs, constant extraction against a specification table"),
  "C05": dict(level="other", ref="§4 C05",
    text="Structural sufficient condition for termination and linear work/memory, decided from the SSA form of every function on the decode call tree: each loop (cycles = strongly connected components) is a range/counted loop over a loop-invariant bound, a loop in which every cycle reads a value of width>=1 through the sequential reader's guarded primitive and leaves on the sticky error (with the primitive's lemmas proven: no-op after an error, otherwise non-nil error or advance within len(data)), or a geometric/divisive counter loop; length-bounded loops are not nested; every make() is constant, the L-vbi-bounded frame size, or proven <= the bytes present; every append adds a constant number of elements; no recursion, no blocking primitive. Constant factors and wall-clock time are not decided.",
    technique="static analysis: loop-shape classification on the SSA CFG + linear-inequality proofs of allocation sizes"),
